@@ -245,6 +245,13 @@ def ob_satcache(method, tier="quick"):
         s = _state(c, H, ncons)
         nx = c.choose([True, True], "n-extra")
         extra = tuple(CH(name="x") for _ in range(nx))
+        # which variables a constraint mentions says nothing about whether it is satisfiable: the solver's constraints are over v, an extra
+        # constraint may be over v or over a variable the solver has never seen
+        s.variables = {"v"}
+        for h in s.constraints:
+            h.variables = frozenset({"v"})
+        for h in extra:
+            h.variables = frozenset({"v"}) if c.choose([True, True], f"extra{h.uid}-over-the-solvers-variable") == 0 else frozenset({"w"})
         GX = conj(s.constraints) & conj(list(extra))
         label = f"SatCacheMixin.{method}"
         try:
